@@ -148,12 +148,34 @@ struct Session {
     version: i64,
 }
 
+/// file names as users have them: plain, with a space, with non-ASCII letters and a `%`
+fn doc_name(i: usize, ext: &str) -> String {
+    match i % 3 {
+        0 => format!("doc{i}.{ext}"),
+        1 => format!("read me {i}.{ext}"),
+        _ => format!("naïve 100% #{i}.{ext}"),
+    }
+}
+
+/// `file:` URI of a path, percent-encoded the way editors send it
+fn file_uri(p: &Path) -> String {
+    let mut out = String::from("file://");
+    for b in p.to_string_lossy().bytes() {
+        if b.is_ascii_alphanumeric() || matches!(b, b'/' | b'-' | b'.' | b'_' | b'~') {
+            out.push(b as char);
+        } else {
+            out.push_str(&format!("%{b:02X}"));
+        }
+    }
+    out
+}
+
 impl Session {
     fn uri(&self, i: usize) -> String {
-        self.sb.uri(&format!("doc{i}.{}", ext(&self.langs[i])))
+        file_uri(&self.path(i))
     }
     fn path(&self, i: usize) -> PathBuf {
-        self.sb.ws_file(&format!("doc{i}.{}", ext(&self.langs[i])))
+        self.sb.ws_file(&doc_name(i, ext(&self.langs[i])))
     }
     fn start(&mut self) -> Result<(), LspError> {
         let settings = self.sb.settings(json!({}));
@@ -614,6 +636,91 @@ pub fn js_strategy() -> BoxedStrategy<JsCase> {
     )
         .prop_map(|(ops, dialect)| JsCase { ops, dialect })
         .boxed()
+}
+
+// ------------------------------------------------------------------------------------------------
+// the command-line tool reads the dictionaries the language server wrote
+
+#[derive(Debug, Clone, Serialize, Deserialize, PartialEq, Eq, Hash)]
+pub struct CliDictCase {
+    /// 0 plain path, 1 the document's directory is reached through a symbolic link, 2 the
+    /// document itself is a symbolic link
+    pub path_kind: u8,
+    pub name: u8,
+}
+
+pub fn test_cli_dicts(c: &CliDictCase, ctx: &mut CaseCtx) -> Result<(), String> {
+    let r = (|| -> Result<Result<(), String>, LspError> {
+        let io = |e: std::io::Error| LspError::Protocol(e.to_string());
+        let sb = Sandbox::new("c07cli");
+        let real_dir = sb.ws_file("real");
+        std::fs::create_dir_all(&real_dir).map_err(io)?;
+        let fname = doc_name(c.name as usize, "md");
+        let text = "We like frobnix and qwertzu and wibblet here.\n";
+        std::fs::write(real_dir.join(&fname), text).map_err(io)?;
+        // the path as the user opens it, in the editor and on the command line
+        let opened = match c.path_kind % 3 {
+            0 => real_dir.join(&fname),
+            1 => {
+                std::os::unix::fs::symlink(&real_dir, sb.ws_file("link")).map_err(io)?;
+                sb.ws_file("link").join(&fname)
+            }
+            _ => {
+                let l = sb.ws_file(&format!("shortcut-{fname}"));
+                std::os::unix::fs::symlink(real_dir.join(&fname), &l).map_err(io)?;
+                l
+            }
+        };
+        ctx.class(["plain_path", "directory_is_a_symbolic_link", "document_is_a_symbolic_link"][c.path_kind as usize % 3]);
+        ctx.nontrivial(c);
+        let uri = file_uri(&opened);
+        let mut srv = Server::start(&sb, sb.settings(json!({})), None)?;
+        srv.open(&uri, "markdown", text)?;
+        srv.execute_and_publish("HarperAddToUserDict", json!(["frobnix", uri]), &uri)?;
+        let d = srv.execute_and_publish("HarperAddToFileDict", json!(["qwertzu", uri]), &uri)?;
+        srv.shutdown()?;
+        let flagged: Vec<String> = d.iter().filter(|d| is_spelling(d)).map(|d| diag_text(text, d)).collect();
+        if flagged != ["wibblet"] {
+            return Ok(Err(format!("language server: after adding frobnix (user) and qwertzu (file) the spelling diagnostics are on {flagged:?}, expected only wibblet")));
+        }
+        let cli = std::env::var("HV_CLI_BIN").unwrap_or_else(|_| "/verif/target/ls/release/harper-cli".into());
+        let out = std::process::Command::new(&cli)
+            .arg("lint")
+            .arg(&opened)
+            .args(["--only-lint-with", "SpellCheck"])
+            .arg("--user-dict-path")
+            .arg(sb.user_dict())
+            .arg("--file-dict-path")
+            .arg(sb.file_dict_dir())
+            .env("HOME", sb.root.join("home"))
+            .env("XDG_CONFIG_HOME", sb.root.join("config"))
+            .env("XDG_DATA_HOME", sb.root.join("data"))
+            .stdin(std::process::Stdio::null())
+            .output()
+            .map_err(|e| LspError::Protocol(format!("cannot run {cli}: {e}")))?;
+        let printed = format!("{}{}", String::from_utf8_lossy(&out.stdout), String::from_utf8_lossy(&out.stderr));
+        let reported = |w: &str| printed.contains(&format!("“{w}”"));
+        if !reported("wibblet") {
+            return Ok(Err(format!("control failed: harper-cli does not report wibblet: {}", crate::core::truncate(&printed, 300))));
+        }
+        for w in ["frobnix", "qwertzu"] {
+            if reported(w) {
+                return Ok(Err(format!(
+                    "{w:?} was added to the {} dictionary through the language server for {}, but `harper-cli lint` on the same path reports it",
+                    if w == "frobnix" { "user" } else { "file" },
+                    opened.display()
+                )));
+            }
+        }
+        Ok(Ok(()))
+    })();
+    match r {
+        Ok(r) => r,
+        Err(e) => {
+            ctx.infra(e);
+            Ok(())
+        }
+    }
 }
 
 // ------------------------------------------------------------------------------------------------
@@ -1140,7 +1247,7 @@ pub fn test_write_failure(c: &CrashCase, ctx: &mut CaseCtx) -> Result<(), String
 
 pub fn run(run: &mut Run) {
     run.level = "fault_enumeration".into();
-    run.rule = "(a) LSP histories on the real harper-ls (sandboxed HOME/XDG, buffer = disk): 1-3 documents (plain, Markdown, Rust, Python) mentioning non-words from an 18-word vocabulary (ASCII, non-ASCII Latin, straight and curly apostrophes); ops AddToUserDict / AddToFileDict (word = text under a published spelling diagnostic, as a code action sends it), Change, Restart; after every step: added words are no longer reported in any subsequently checked text they apply to, all other diagnostics unchanged, a file-dictionary word does not leak to other files, the dictionary file (lines as a set) equals the model, a restart reproduces the diagnostics. (c) crash points: the save is recorded under strace; every prefix of the globally ordered file mutations, and every short write, is replayed in a file-system model (checked to reproduce the real final state) and must reload to the previous words or the previous words plus the new one. (b) js_import_histories: histories of import_words / lint / persist (export_words, new Linter, import_words) on the wasm-facing Linter with the same vocabulary plus curated words and their re-capitalisations; after every step export_words equals the set imported so far, no imported word is reported as misspelt, and every other lint equals what a linter without imported words reports. (e) large_dictionaries: pre-existing user dictionaries of 2-1800 words spelt in 2- and 3-byte Latin letters (a padding word shifts them against block boundaries), LF or CRLF, as a regular file or as a relative symbolic link: no listed word is reported after load, after another add and after a restart; the file holds exactly the old words plus the new one; a link stays a link. (d) write_error_during_save: the server runs with RLIMIT_FSIZE at half the dictionary size (SIGXFSZ ignored) so that the rewrite fails part-way with EFBIG; the dictionary file must still hold every earlier word. Non-trivial (a) = >=2 adds and (a restart or a second document); (c) = pre-state with >=2 words.".into();
+    run.rule = "(a) LSP histories on the real harper-ls (sandboxed HOME/XDG, buffer = disk): 1-3 documents (plain, Markdown, Rust, Python) mentioning non-words from an 18-word vocabulary (ASCII, non-ASCII Latin, straight and curly apostrophes); ops AddToUserDict / AddToFileDict (word = text under a published spelling diagnostic, as a code action sends it), Change, Restart; after every step: added words are no longer reported in any subsequently checked text they apply to, all other diagnostics unchanged, a file-dictionary word does not leak to other files, the dictionary file (lines as a set) equals the model, a restart reproduces the diagnostics. (c) crash points: the save is recorded under strace; every prefix of the globally ordered file mutations, and every short write, is replayed in a file-system model (checked to reproduce the real final state) and must reload to the previous words or the previous words plus the new one. (b) js_import_histories: histories of import_words / lint / persist (export_words, new Linter, import_words) on the wasm-facing Linter with the same vocabulary plus curated words and their re-capitalisations; after every step export_words equals the set imported so far, no imported word is reported as misspelt, and every other lint equals what a linter without imported words reports. (e) large_dictionaries: pre-existing user dictionaries of 2-1800 words spelt in 2- and 3-byte Latin letters (a padding word shifts them against block boundaries), LF or CRLF, as a regular file or as a relative symbolic link: no listed word is reported after load, after another add and after a restart; the file holds exactly the old words plus the new one; a link stays a link. (f) command_line_reads_dictionaries: words added through the language server to the user and file dictionary of a document (plain path, directory reached through a symbolic link, document that is a symbolic link; names with spaces, non-ASCII letters, `%`) are not reported by `harper-cli lint` on the same path. (d) write_error_during_save: the server runs with RLIMIT_FSIZE at half the dictionary size (SIGXFSZ ignored) so that the rewrite fails part-way with EFBIG; the dictionary file must still hold every earlier word. Non-trivial (a) = >=2 adds and (a restart or a second document); (c) = pre-state with >=2 words.".into();
     run.threads = run.threads.min(8);
     case_variant_subrun(run);
     run.max_shrink_iters = 80;
@@ -1177,6 +1284,8 @@ pub fn run(run: &mut Run) {
     run.prop("js_import_histories", n, js_strategy, test_js_history);
     run.require_class("js_import_histories", "export_new_linter_import", (n / 10) as u64);
     run.require_class("js_import_histories", "imports_relative_of_curated_word", (n / 4) as u64);
+    let cli_cases: Vec<CliDictCase> = (0..9u8).map(|k| CliDictCase { path_kind: k % 3, name: k / 3 }).collect();
+    run.enumerate("command_line_reads_dictionaries", &cli_cases, false, test_cli_dicts);
     let n = run.n(24, 400);
     run.prop(
         "large_dictionaries",
@@ -1206,7 +1315,10 @@ pub fn run(run: &mut Run) {
 
 pub fn replay(check: &str, case: Value, _run: &mut Run) -> Result<(), String> {
     let mut ctx = CaseCtx::default();
-    let r = if check == "large_dictionaries" {
+    let r = if check == "command_line_reads_dictionaries" {
+        let c: CliDictCase = serde_json::from_value(case).map_err(|e| e.to_string())?;
+        test_cli_dicts(&c, &mut ctx)
+    } else if check == "large_dictionaries" {
         let c: LargeDictCase = serde_json::from_value(case).map_err(|e| e.to_string())?;
         test_large_dict(&c, &mut ctx)
     } else if check == "js_import_histories" {
